@@ -495,6 +495,8 @@ def reproduce_by_trace(ctx, binp, all_events, bad_events, extra_env=None):
         for b in [x for x in bad_events if x.get("t") == tno]:
             if b.get("out") in seen.get(key(b), []):
                 confirmed.append(b)
+            elif b.get("op", "").endswith(".par") and any((o or {}).get("panic") for o in seen.get(key(b), [])):
+                confirmed.append(b)      # a concurrent phase deviated again (the wording of the finding may differ)
             else:
                 ctx.notes.append("non-reproduced rejection dropped: %s" % json.dumps(b)[:300])
     if len(confirmed) != len(bad_events):
@@ -618,6 +620,8 @@ def reproduce(ctx, binp, bad_events, extra_env=None, history=None):
     for e in bad_events:
         if e.get("out") in seen.get(key(e), []):
             confirmed.append(e)
+        elif e.get("op", "").endswith(".par") and any((o or {}).get("panic") for o in seen.get(key(e), [])):
+            confirmed.append(e)          # a concurrent phase deviated again (the wording of the finding may differ)
         else:
             ctx.notes.append("non-reproduced rejection dropped: %s" % json.dumps(e)[:300])
     if len(confirmed) != len(bad_events):
